@@ -1794,6 +1794,11 @@ package zygo
 // only by the rune state machine (when a rune ends the atom); nothing else may flush it, so a
 // piece of text that ends inside an atom leaves the atom open until the next piece arrives.
 //@ callers C13 (*Lexer).dumpBuffer | (*Lexer).LexNextRune
+// ... and the runes reach the state machine one at a time from one place: the token filler, which
+// turns "no more runes in this piece" into End / a pause (AddNextStream only probes whether the
+// current piece is used up). A state that reads ahead in the stream itself cannot pause.
+//@ callers C13 invoke:ReadRune | (*Lexer).PeekNextToken, (*Lexer).AddNextStream
+//@ callers C13 invoke:UnreadRune | (*Lexer).AddNextStream
 //@ callers C13 (*Lexer).AppendToken | (*Lexer).LexNextRune, (*Lexer).dumpBuffer, (*Lexer).dumpComment, (*Lexer).dumpString, (*Lexer).dumpBacktickString
 
 // C02: an argument expression that is not a bare symbol is compiled and run for every
